@@ -36,12 +36,12 @@ def main():
     import os
     from . import engine
     from .checks import _poolprobe
-    for f in os.listdir('/dev/shm'):
+    for f in os.listdir(_poolprobe.FLAGDIR):
         if f.startswith('verif-poolprobe-'):
-            os.remove(os.path.join('/dev/shm', f))
+            os.remove(os.path.join(_poolprobe.FLAGDIR, f))
     _m, cases, results, _s = engine.explore('mc.checks._poolprobe', 'quick', 0)
     assert all(r is not None for r in results) and [r['index'] for r in results if r.get('outcome') == 'worker-died'] == [301], 'pool recovery'
-    for f in os.listdir('/dev/shm'):
+    for f in os.listdir(_poolprobe.FLAGDIR):
         if f.startswith('verif-poolprobe-'):
-            os.remove(os.path.join('/dev/shm', f))
+            os.remove(os.path.join(_poolprobe.FLAGDIR, f))
     print('selftest ok')
